@@ -112,7 +112,7 @@ def run_scenarios(rep, name, progs, binaries, prop, max_steps=400, trace=True):
         import tracevm
         clean = [r for r in runs if r["done"] and not r["oom"] and not r["trig"]]
         nt = ne = 0
-        for bname, binary in binaries:
+        for bname, binary in (binaries if clean else []):
             a, e = tracevm.validate(rep, binary, bname, [mrun.case_of(r["id"] if "id" in r else i, r["prog"]) for i, r in enumerate(clean)],
                                     "scenario family %s" % name, tag="tv" + prop.lower() + name[:6])
             nt += a
